@@ -313,7 +313,9 @@ class Interp:
         sub.dispatch = self.dispatch
         cg = self._call_gargs
         self._call_gargs = None
-        if cg is not None:
+        if isinstance(cg, dict):
+            sub.tsubst = cg
+        elif cg is not None:
             names = [p_["name"] for p_ in (fn.generics or {}).get("params", []) if p_.get("kind") != "lifetime"]
             if len(names) == len(cg):
                 sub.tsubst = dict(zip(names, cg))
@@ -353,13 +355,14 @@ class Interp:
                 return None
             ts = getattr(fv, "tsubst", None)
             if ts:
-                names = [p_["name"] for p_ in (fn.generics or {}).get("params", []) if p_.get("kind") != "lifetime"]
-                self._call_gargs = [ts.get(n_, n_) for n_ in names]
+                self._call_gargs = dict(ts)      # a closure body names its creator's type parameters
             return self.call_body(fn, [fv] + list(args))
         if isinstance(fv, tuple) and fv and fv[0] == "fn":
             key = fv[1].get("resolved", {}).get("key") or fv[1].get("key")
             fn = self.facts.fn_opt(key)
             if fn is not None and (self.inline is None or self.inline(key)):
+                if not fv[1].get("resolved", {}).get("key"):
+                    self._call_gargs = fv[1].get("gargs_inst") or fv[1].get("gargs")
                 return self.call_body(fn, list(args))
             # not a crate function (`Vec::as_slice`, `Clone::clone`, ... used as a function value): ask the oracle
             if self.oracle is not None:
@@ -604,7 +607,11 @@ class Interp:
         if op[0] == "const":
             c = op[1]
             if "fn" in c:
-                return ("fn", c["fn"])
+                fd = c["fn"]
+                if self.tsubst and fd.get("gargs"):
+                    fd = dict(fd)
+                    fd["gargs_inst"] = [tsub(g, self.tsubst) for g in fd["gargs"]]     # a function item named inside a generic body
+                return ("fn", fd)
             if "f" in c:
                 return float(c["f"])
             if "v" in c:
@@ -914,6 +921,14 @@ class Interp:
                     if self.tsubst and (f.get("gargs") or f.get("resolved", {}).get("gargs")):
                         f = dict(f)
                         f["cgargs"] = [tsub(g, self.tsubst) for g in (f.get("gargs") or [])]
+                    if self.tsubst and self.facts is not None and f.get("kind") == "def" and f.get("trait") and not f.get("resolved", {}).get("key") and f.get("cgargs"):
+                        # a trait method on a type PARAMETER of the enclosing generic body: resolved through the instantiation
+                        st_ = f["cgargs"][0]
+                        if isinstance(st_, str) and (st_.startswith("mahf::") or st_.startswith("<mahf::")) and " as " not in st_:
+                            ik_ = "<%s as %s>::%s" % (st_.split("<")[0], f["trait"], f.get("name"))
+                            if self.facts.fn_opt(ik_) is not None:
+                                f["resolved"] = {"key": ik_, "gargs": None, "inst": "by-instantiation"}
+                                ckey = ik_
                     _rg = f.get("resolved", {}).get("gargs") if f.get("resolved", {}).get("key") else f.get("gargs")
                     self._inst_gargs = [tsub(g, self.tsubst) for g in (_rg or [])]
                     if f.get("kind") == "fnptr" and "op" in f:
@@ -1148,6 +1163,40 @@ def std_oracle(interp, env, f, args, t, bb, path):
         return TOP
     if key in ("core::mem::drop", "core::mem::forget"):
         return Agg("tuple", None, None, [])
+    if key in ("core::convert::TryFrom::try_from", "core::convert::TryInto::try_into") and len(args) == 1:
+        v = deref(a0)
+        ga = f.get("gargs") or ["", ""]
+        dst = ga[0] if key.endswith("try_from") else ga[-1]
+        bits = {"u8": (0, 2**8 - 1), "u16": (0, 2**16 - 1), "u32": (0, 2**32 - 1), "u64": (0, 2**64 - 1), "usize": (0, 2**64 - 1), "u128": (0, 2**128 - 1),
+                "i8": (-2**7, 2**7 - 1), "i16": (-2**15, 2**15 - 1), "i32": (-2**31, 2**31 - 1), "i64": (-2**63, 2**63 - 1), "isize": (-2**63, 2**63 - 1), "i128": (-2**127, 2**127 - 1)}
+        if isinstance(v, int) and not isinstance(v, bool) and dst in bits:
+            lo_, hi_ = bits[dst]
+            return ok(v) if lo_ <= v <= hi_ else err(Sym("TryFromIntError"))
+    if key in ("core::option::Option::get_or_insert_with", "core::option::Option::get_or_insert", "core::option::Option::insert",
+               "core::option::Option::get_or_insert_default") and isinstance(a0, (Ref, HRef)) and (len(args) == 2 or key.endswith("_default")):
+        cur = deref(a0)
+        if not (isinstance(cur, Agg) and cur.name == "core::option::Option"):
+            return TOP
+        if cur.variant == "None" or name == "insert":
+            if name == "get_or_insert_with":
+                outs_ = interp.call_value(args[1], [])
+                if not outs_ or len(outs_) != 1 or outs_[0][2] != "return":
+                    return TOP
+                interp.mstate.clear()
+                interp.mstate.update(outs_[0][3])
+                newv = outs_[0][0]
+            elif name == "get_or_insert_default":
+                return TOP
+            else:
+                newv = args[1]
+            if isinstance(a0, Ref):
+                interp.write_ref(env, a0, some(newv))
+            elif not href_set(interp, env, a0, some(newv)):
+                return TOP
+        ext = [["d", 1, "Some"], ["f", 0, None]]
+        if isinstance(a0, Ref):
+            return Ref(a0.local, list(a0.proj) + ext, frame=a0.frame)
+        return HRef(a0.vid, a0.idx, tuple(a0.proj) + tuple(tuple(x) for x in ext))
     if key == "core::default::Default::default" and not args:
         rt = f.get("ret") or (f.get("gargs") or [""])[0]
         if rt in ("usize", "u8", "u16", "u32", "u64", "u128", "isize", "i8", "i16", "i32", "i64", "i128"):
